@@ -36,6 +36,10 @@ def main(argv=None) -> int:
             for o in rp.get("failed_obligations", []):
                 print("  recorded: %s" % json.dumps(o))
         mod.run(ctx)
+        if ctx.thorough and not ctx.no_selftest:
+            from .selftest import thorough_slice
+
+            thorough_slice(ctx)
         return ctx.report.finish()
     except AnalysisError as e:
         print("ANALYSIS-ERROR property=%s %s" % (pid, e))
